@@ -75,6 +75,7 @@ PICKS = [
  ("common.Spec.EpochStartSlot", "out", "epoch * SLOTS_PER_EPOCH"),
  ("common.Spec.SlotToEpoch", "return#0", "slot // SLOTS_PER_EPOCH"),
  ("common.Spec.TimeAtSlot", "return#0", "genesis_time + slot * SECONDS_PER_SLOT"),
+ ("common.Spec.TimeAtSlot", "max", "largest slot whose time fits 64 bits: (2^64-1 - genesis_time) // SECONDS_PER_SLOT (subtract first, divide second)"),
  ("common.Spec.TimeToSlot", "return#0", "(time - genesis_time) // SECONDS_PER_SLOT"),
  ("phase0.InitiateValidatorExit", "err", "withdrawable_epoch = exit_epoch + MIN_VALIDATOR_WITHDRAWABILITY_DELAY"),
  ("phase0.ProcessEpochRegistryUpdates", "withdrawEpoch", "exit_epoch + MIN_VALIDATOR_WITHDRAWABILITY_DELAY"),
@@ -117,6 +118,8 @@ PICKS = [
  ("common.innerShuffleList", "end", "list_size - 1"),
  ("common.innerShuffleList", "byteV", "source[(j % 256) // 8], primed from the segment's first position (pivot, then end)"),
  ("common.innerShuffleList", "bitV", "(byte >> (j % 8)) % 2"),
+ ("common.innerPermuteIndex", "call:PutUint32#1", "source = hash(seed + round + uint_to_bytes(uint32(position // 256))): shift first, truncate second"),
+ ("common.innerShuffleList", "call:PutUint32#1", "source = hash(seed + round + uint_to_bytes(uint32(position // 256))) for pivot, j, end, j"),
  ("common.ComputeProposerIndex", "absI", "candidate i of batch: (batch*32 + j) % total"),
  ("common.ComputeSyncCommitteeIndices", "shuffledIndex", "compute_shuffled_index(i % active_validator_count, active_validator_count, seed)"),
  ("common.ComputeSyncCommitteeIndices", "randomByte", "hash(seed + uint_to_bytes(i // 32))[i % 32]"),
